@@ -60,6 +60,13 @@ func oracleHook(o fsOpts, dir string) func(i int, s *h.Session, st *h.Step) {
 // judgeOracles turns oracle messages into failures and classifies them against the
 // triggers the model reported for the history so far.
 func judgeOracles(o fsOpts, hist *h.History, m []h.ModelStep, res *result) {
+	// A listed finding explains a violation only while the implementation still behaves as the
+	// model says (the finding *is* the model's behaviour in the trigger region): from the first
+	// step on which model and implementation disagree, nothing is excused.
+	divergedAt := len(hist.Steps) + 1
+	if mm := h.CompareCorr(hist, m); mm != nil {
+		divergedAt = mm.Step
+	}
 	fired := []string{}
 	calls := []string{}
 	for i, st := range hist.Steps {
@@ -83,7 +90,9 @@ func judgeOracles(o fsOpts, hist *h.History, m []h.ModelStep, res *result) {
 			parts := strings.SplitN(pm, "\x00", 2)
 			f := OracleFail{Property: parts[0], Hist: hist.ID, Step: i, What: parts[1], Triggers: append([]string{}, fired...),
 				Calls: append([]string{}, calls...)}
-			f.Known = o.known.Explain(parts[0], fired)
+			if i < divergedAt {
+				f.Known = o.known.Explain(parts[0], fired)
+			}
 			if f.Known != "" {
 				res.KnownHits[f.Known]++
 			}
@@ -338,7 +347,7 @@ func oracleC15(hs *hookState, s *h.Session, st *h.Step) []string {
 		if st.Res != "permission" {
 			msgs = append(msgs, fmt.Sprintf("mutating call %s on a read-only instance returned %s instead of a permission error", st.Call.Method, st.Res))
 		}
-	case "hwrite":
+	case "hwrite", "hwritestr":
 		if st.Res != "permission" && st.Res != "isdir" && st.Res != "badhandle" {
 			msgs = append(msgs, fmt.Sprintf("write through a handle of a read-only instance returned %s", st.Res))
 		}
